@@ -1,5 +1,5 @@
 """C02 -- the default loader reads back everything any bundled encoder writes."""
-from .. import langrules
+from .. import timerules, langrules
 
 
 def run(repo, res, tier):
@@ -11,10 +11,11 @@ def run(repo, res, tier):
         "another type, reported with a shortest witness. O1: every comment opener / reserved character the permissive "
         "grammar adds is reserved or outside the character set of each encoder grammar. O2: the first-character set "
         "of the whole-document dash-continuation rewrite (regex syntax tree) vs the last characters of bare strings, "
-        "and whether a delimiter always separates a value from the line end. Not decided: equality of the reloaded "
+        "and whether a delimiter always separates a value from the line end. R1-R4: the writer of temporal values consumes every field, can write both offset signs, pads fractions, and writes only zone suffixes its reader accepts. Not decided: equality of the reloaded "
         "module.")
     res.assumptions = ["dateutil is absent from the interpreter that runs pvl"]
     an = langrules.analyse(repo)
     langrules.rule_s1(repo, res, an, "omni")
     langrules.rule_o1(repo, res, an)
     langrules.rule_o2(repo, res, an)
+    timerules.rule_r(repo, res)
